@@ -119,7 +119,13 @@ func numberAcross(sh Shape, r interface{ IntN(int) int }, term bool) Shape {
 	}
 	sh.Numbering = make([]IndexTerm, n)
 	if !term {
-		full := pow - 1 - uint64(r.IntN(2)) // pow-1 or pow-2; at least two incrementals follow
+		// The step over pow lies between two incrementals (full at pow-2), or,
+		// when the full carries WALs of its own, possibly between the full and
+		// its first incremental: WAL files on both sides of the step are reaped.
+		full := pow - 2
+		if sh.Groups[len(sh.Groups)-1].FullWALs > 0 {
+			full += uint64(r.IntN(2))
+		}
 		t := 1 + uint64(r.IntN(5))
 		for i := range sh.Numbering {
 			sh.Numbering[i] = IndexTerm{Index: full - uint64(k) + uint64(i), Term: t}
